@@ -14,6 +14,8 @@ def run(facts, tier):
         ("assignment safety", c19_rules.assign_safety, 8, "copy assignment reads the source before releasing owned members, or guards self-assignment"),
         ("cache invalidation", quantile_rules.cache_invalidation, 9, "assignments and mutators invalidate the cached sorted view (a moved/copied-into sketch must not keep a view of its old contents)"),
         ("raw slot flag", c19_rules.raw_slot_flag, 5, "var_opt: whenever data_ receives fresh raw memory the all-slots-constructed flag is false on return"),
+        ("full initialisation", c19_rules.full_init, 9, "occupancy / key / bit arrays are initialised over their whole extent wherever they receive fresh memory (no early exit from the initialising loop)"),
+        ("vacuous loops", lambda fa: generic_lints.vacuous_loops(fa, None), 2, "no counted loop whose bound was just reset to its start value (the destroy-the-rest loop after a rebuild must use the saved count)"),
         ("foreign memory", c19_rules.foreign_memory, 0, "no new/delete/malloc outside the user's allocator (reviewed exception: CPC compressor tables)"),
         ("dangling references", c19_rules.dangling_returns, 50, "no function returns a reference to a local object"),
         ("tautologies", lambda fa: generic_lints.tautologies(fa, None), 2, "no comparison / assignment / min-max with two identical operands, no if-else with identical arms"),
